@@ -156,6 +156,10 @@ def _pool(r, i):
     n = r.choice([5, 7, 7, 9])
     vals = ", ".join(str(10 * (k + 1)) for k in range(n))
     P.append(dict(src=HEADER + f"@constexpr\ndef levels():\n    return [{vals}]\nT = levels()\nfor v in T:\n    db.Setting = v\n    yield_()\nk = db.On\ndb.Mode = T[k]\n", opts=opts_from_bits(r.randrange(256))))
+    # a main-script constexpr function that calls a constexpr helper of a library module; only the library differs
+    # between the two requests
+    for off in r.sample([100, 200, 300], 2):
+        P.append(dict(src={"": HEADER + "from library import cfg\n@constexpr\ndef threshold(level):\n    return cfg.base(level) * 10 + 1\ndb.Setting = threshold(3)\n", "cfg": HEADER + f"@constexpr\ndef base(n):\n    return n + {off}\n"}, opts=opts_from_bits(r.randrange(256))))
     # pragma programs: the options object of this request is shared with the next request of the history
     for pr in r.sample(["# pytrapic: compact, remove-labels\n", "# pytrapic: no-inline-functions, use-push-pop-functions\n", "# pytrapic: no-append-version, generated_comments\n"], 2):
         P.append(dict(src=HEADER + pr + "def f(a):\n    db.Setting = a + HASH(\"x\")\nf(d0.Setting)\n", opts=opts_from_bits(r.randrange(256)), share_options=True))
@@ -186,7 +190,7 @@ def gen_case(task, i):
     # truly fresh interpreters cost 5-8 CPU-seconds each: 1 request per history in the quick tier, 4 in the thorough
     # tier (under 3 hash seeds); the other requests are referenced by forked pristine children
     fresh_for = sorted(r.sample(fresh_for, 1 if task.get("tier") != "thorough" else min(4, len(fresh_for))))
-    return dict(pool=P, order=order, hashseeds=hs, fresh_for=fresh_for, stream=task["stream"])
+    return dict(pool=P, order=order, hashseeds=hs, fresh_for=fresh_for, stream=task["stream"], dict_options=(i % 3 == 1))
 
 
 def fresh(req, hashseed):
@@ -229,27 +233,39 @@ def check_case(case):
     for pos, k in enumerate(case["order"]):
         req = P[k]
         src = copy.deepcopy(req["src"])
+        as_dict = bool(case.get("dict_options"))
         if shared is not None and not req.get("share_options"):
             # the caller keeps one options object and only sets the fields it cares about (as the web editor does)
             options = shared
             for n in OPTION_NAMES:
-                setattr(options, n, req["opts"][n])
+                if isinstance(options, dict):
+                    options[n] = req["opts"][n]
+                else:
+                    setattr(options, n, req["opts"][n])
             cnt["shared_options_calls"] += 1
+        elif as_dict:
+            options = dict(req["opts"])  # compile_code also takes the options as a plain mapping
+            cnt["dict_options_calls"] = cnt.get("dict_options_calls", 0) + 1
         else:
             options = CO(**req["opts"])
         if req.get("share_options"):
             shared = options
         else:
             shared = None
-        snap_o, snap_s = copy.deepcopy(options.__dict__), copy.deepcopy(src)
+        odict = options if isinstance(options, dict) else options.__dict__
+        snap_o, snap_s = copy.deepcopy(odict), copy.deepcopy(src)
         res = cc(src, options)
         cnt["requests"] += 1
         cnt["inputs_snapshotted"] += 1
-        if options.__dict__ != snap_o:
-            changed = {n: (snap_o[n], options.__dict__[n]) for n in snap_o if options.__dict__[n] != snap_o[n]}
-            vio.append(dict(signature=dict(monitor="input-immutability", event="options-object-modified"), detail=dict(position=pos, request=k, changed=changed)))
+        if odict != snap_o:
+            changed = {n: (snap_o.get(n), odict.get(n)) for n in set(snap_o) | set(odict) if odict.get(n) != snap_o.get(n)}
+            vio.append(dict(signature=dict(monitor="input-immutability", event="options-object-modified"), detail=dict(position=pos, request=k, changed=changed, dict_form=isinstance(options, dict))))
+            odict.clear() if isinstance(options, dict) else None
             for n, v in snap_o.items():
-                setattr(options, n, v)
+                if isinstance(options, dict):
+                    options[n] = v
+                else:
+                    setattr(options, n, v)
         if src != snap_s:
             vio.append(dict(signature=dict(monitor="input-immutability", event="source-mapping-modified"), detail=dict(position=pos, request=k)))
         if H.is_timeout(res):
